@@ -170,6 +170,8 @@ func c06NormState(b []byte) string {
 func c06Run(t *testing.T, p c06Plan) (res vfResult) {
 	vfBubble(t, func(w *vfWorld) {
 		vfSetupWorldTargets(w)
+		// tf1 passes its first probe and fails every later one: a target that was healthy for a while
+		w.target(vfFailPool[1]).setProbeScript([]vfProbeStep{{Kind: "ok"}}, vfProbeStep{Kind: "status", Status: 500})
 		r := w.newRouter("r")
 		m := newVFModel()
 		for i, c := range p.Setup {
@@ -194,6 +196,10 @@ func c06Run(t *testing.T, p c06Plan) (res vfResult) {
 			}
 		}
 		synctest.Wait()
+		usedMark := map[string]int{}
+		for tn := range used {
+			usedMark[tn] = len(w.targets[tn].probeLog())
+		}
 		mark := map[string]int{}
 		for _, tn := range p.Fail.Targets {
 			if tg, ok := w.targets[tn]; ok && !used[tn] {
@@ -240,6 +246,13 @@ func c06Run(t *testing.T, p c06Plan) (res vfResult) {
 			if late > 0 {
 				res.failf("probe-leak:"+cls, "after failed command %s (%s, returned at %v) target %s named only by it was probed %d more times in the next %v",
 					p.Fail, cls, got.End, tn, late, 5*ivl)
+				return
+			}
+		}
+		// ... and the targets in use keep being probed as before
+		for tn, n0 := range usedMark {
+			if len(w.targets[tn].probeLog()) == n0 {
+				res.failf("probing-stopped:"+cls, "after failed command %s (%s) target %s, in use by a deployed service, was not probed once in the next %v", p.Fail, cls, tn, 5*ivl)
 				return
 			}
 		}
